@@ -26,6 +26,12 @@ def rename_types(schema, mapping):
     return s
 
 
+# Which members the SDL rendering with unfolded extensions moves into `extend type` blocks.
+EXT_PLAN = {"Robot": {"fields": ["owner", "serial"], "ifaces": ["Node"]},
+            "Person": {"fields": ["lonely", "older", "colors"], "ifaces": ["Named"]},
+            "RootQ": {"fields": ["named", "version"], "ifaces": []}}
+
+
 def schema_from_tla(sj, variant="full", explicit_roots=True):
     """sj = SchemaJson emitted by the MC modules -> abstract schema of render.py"""
     types = []
@@ -42,10 +48,11 @@ def schema_from_tla(sj, variant="full", explicit_roots=True):
                 elif f["dep"] != "none":
                     dep = {"reason": f["dep"]}
                 fs.append({"name": f["name"], "type": {"q": list(f["q"]), "base": f["base"]}, "dep": dep,
-                           "args": [], "ext": bool(f.get("ext"))})
+                           "args": [], "ext": f["name"] in EXT_PLAN.get(name, {}).get("fields", [])})
             o["fields"] = fs
             if k == "OBJECT":
                 o["interfaces"] = [i for i in sj["order"] if i in t["ifaces"]]
+                o["ext_interfaces"] = EXT_PLAN.get(name, {}).get("ifaces", [])
         elif k == "UNION":
             o["members"] = list(t["members"])
         elif k == "ENUM":
